@@ -67,7 +67,8 @@ Ltac pows :=
   change (2 ^ 8) with 256 in *; change (2 ^ 16) with 65536 in *; change (2 ^ 32) with 4294967296 in *;
   change (2 ^ 64) with 18446744073709551616 in *; change (2 ^ 63) with 9223372036854775808 in *;
   change (2 ^ (8 - 1)) with 128 in *; change (2 ^ (16 - 1)) with 32768 in *;
-  change (2 ^ (32 - 1)) with 2147483648 in *; change (2 ^ (64 - 1)) with 9223372036854775808 in *.
+  change (2 ^ (32 - 1)) with 2147483648 in *; change (2 ^ (64 - 1)) with 9223372036854775808 in *;
+  change (2 ^ 24) with 16777216 in *; change (2 ^ (24 - 1)) with 8388608 in *.
 
 Ltac brk :=
   repeat match goal with
@@ -77,6 +78,15 @@ Ltac brk :=
 
 Lemma wrap_s_id w z : width_ok w = true -> - 2 ^ (w - 1) <= z < 2 ^ (w - 1) -> wrap_s w z = z.
 Proof. intros Hw Hz. unfold wrap_s. widths Hw; pows; brk; lia. Qed.
+
+Lemma colwidth_cases w : colwidth_ok w = true -> width_ok w = true \/ w = 24.
+Proof. unfold colwidth_ok. rewrite orb_true_iff, Z.eqb_eq. tauto. Qed.
+
+Lemma wrap_s_id_col w z : colwidth_ok w = true -> - 2 ^ (w - 1) <= z < 2 ^ (w - 1) -> wrap_s w z = z.
+Proof.
+  intros Hw Hz. destruct (colwidth_cases w Hw) as [H|H]; [apply wrap_s_id; assumption|].
+  subst. unfold wrap_s. pows. brk; lia.
+Qed.
 
 Lemma wrap_u_id w z : width_ok w = true -> 0 <= z < 2 ^ w -> wrap_u w z = z.
 Proof. intros Hw Hz. unfold wrap_u. apply Z.mod_small. exact Hz. Qed.
@@ -131,9 +141,9 @@ Proof.
     destruct c as [cw u| | | | |m]; cbn [storable] in Hs; try discriminate; cbn [col_matches d_base] in Hc.
   all: try (inv Hr; cbn [scan_int64 rbind]; rewrite ?parse_int64_print by assumption; cbn [rbind]; rewrite ?Hid; reflexivity).
   (* binlog, integer column *)
-  apply andb_prop in Hc as [Hcw Hu]. destruct u; [discriminate|].
+  apply andb_prop in Hc as [Hc Hu]. apply andb_prop in Hc as [Hcw _]. destruct u; [discriminate|].
   inv Hr. cbn [scan_int64 rbind].
-  rewrite (wrap_s_id cw z) by (assumption || lia). rewrite Hid. reflexivity.
+  rewrite (wrap_s_id_col cw z) by (assumption || lia). rewrite Hid. reflexivity.
 Qed.
 
 Lemma uint_rt e w z c p s :
@@ -158,7 +168,11 @@ Proof.
     inv Hr. cbn [unsigned_at_own_width]. change (64 <? 64) with false. cbn [scan_int64 rbind].
     rewrite Hback. reflexivity.
   - (* binlog, integer column *)
-    apply andb_prop in Hc as [Hcw Hu]. destruct u; [|discriminate].
+    apply andb_prop in Hc as [Hc Hu]. apply andb_prop in Hc as [Hcw H24]. destruct u; [|discriminate].
+    assert (Hn24 : (cw =? 24) = false) by (destruct (cw =? 24); [discriminate|reflexivity]).
+    rewrite Hn24 in Hr.
+    assert (Hcw' : width_ok cw = true) by (destruct (colwidth_cases cw Hcw) as [H|H]; [exact H|subst; discriminate]).
+    clear Hcw. rename Hcw' into Hcw.
     assert (Hsame : wrap_s 64 z = z) by (apply wrap_s64_nonneg; lia).
     rewrite Hsame in *. inv Hr. cbn [unsigned_at_own_width].
     destruct (cw <? 64) eqn:Hlt; cbn [scan_int64 rbind].
@@ -201,6 +215,12 @@ Proof.
   4: { inv Hr. cbn [scan_float rbind]. rewrite Hf. reflexivity. }
   all: destruct c as [cw u| | | | |m]; cbn [storable negb] in Hr; try discriminate;
     try (inv Hr; cbn [scan_float rbind of_opt]; rewrite ?(law_f64 e L); cbn [rbind of_opt]; rewrite Hf; reflexivity).
+  all: try match type of Hr with
+           | (if exact6 _ _ then _ else _) = _ =>
+               unfold exact6 in Hr; destruct (parsef e (fmt6 e f)) as [f6|] eqn:Hp6; [|discriminate];
+               destruct (round32 e f6 =? f) eqn:H6; [|discriminate]; apply Z.eqb_eq in H6; injection Hr as <-;
+               cbn [scan_float of_opt rbind]; rewrite Hp6; cbn [of_opt rbind]; rewrite H6; reflexivity
+           end.
   all: destruct (round32 e f =? f); try discriminate; inv Hr; cbn [scan_float];
     destruct (law_f32 e L f Hf) as (f' & Hp & Hr'); rewrite Hp; cbn [of_opt rbind]; rewrite Hr'; reflexivity.
 Qed.
@@ -315,19 +335,22 @@ Qed.
 Lemma json_rt e b ptr g : desc_ok (mk_desc b ptr TJson) = true -> gval_ok e b g = true ->
   exists t, json_enc g = DBytes t /\ json_dec b t = Ok g.
 Proof.
-  intros Hd Hg. destruct b; try discriminate; destruct g; try discriminate; cbn [json_enc].
+  intros Hd Hg. destruct b as [w|w| | | | | | |[]]; try discriminate; destruct g; try discriminate; cbn [json_enc].
   - eexists; split; [reflexivity|]. apply json_int_rt; auto.
   - eexists; split; [reflexivity|]. apply json_int_rt; auto.
   - destruct b; eexists; split; reflexivity.
-  - destruct c; discriminate.
 Qed.
 
 (** ** Scanner.Scan after Valuer.Value *)
-Lemma scanner_nonnull e d s : d_base d <> BCustom CValuer -> s <> SNull ->
+(** Types that are their own sql.Scanner take the short cut at the top of Scanner.Scan. *)
+Definition self_scanning (b : base) : bool :=
+  match b with BCustom (CValuer | CNull | CUuid) => true | _ => false end.
+
+Lemma scanner_nonnull e d s : self_scanning (d_base d) = false -> s <> SNull ->
   scanner e d s = rbind (scan_valid e d s) (fun g => Ok (FVal g)).
 Proof.
   intros Hb Hs. unfold scanner, scanner_gen.
-  destruct (d_base d) as [| | | | | | | |[]]; try congruence; destruct s; try congruence; reflexivity.
+  destruct (d_base d) as [| | | | | | | |[]]; try discriminate; destruct s; try congruence; reflexivity.
 Qed.
 
 Lemma scan_valid_plain e d s : plain_base (d_base d) = true ->
@@ -337,9 +360,10 @@ Proof.
   destruct (d_base d); try discriminate; destruct Ht as [-> | ->]; reflexivity.
 Qed.
 
-Lemma is_zero_zero e b g : gval_ok e b g = true -> is_zero g = true -> g = zero_of b.
+Lemma is_zero_zero e b g : (match b with BCustom _ => false | _ => true end) = true ->
+  gval_ok e b g = true -> is_zero g = true -> g = zero_of b.
 Proof.
-  destruct b, g; try discriminate; cbn; intros _ H;
+  destruct b, g; try discriminate; cbn; intros _ _ H;
     try (apply Z.eqb_eq in H; subst; reflexivity);
     try (apply String.eqb_eq in H; subst; reflexivity);
     repeat match goal with x : bool |- _ => destruct x | x : option _ |- _ => destruct x end;
@@ -359,7 +383,7 @@ Proof.
   rewrite scanner_nonnull.
   - rewrite scan_valid_plain by (cbn [d_base d_tag]; assumption). cbn [d_base].
     erewrite plain_rt; eauto. reflexivity.
-  - cbn [d_base]. destruct b; discriminate.
+  - cbn [d_base]. destruct b; try discriminate; reflexivity.
   - eapply nonnull_src; [|exact Hr]. eapply plain_nonnull; eauto.
 Qed.
 
@@ -367,6 +391,15 @@ Lemma scanner_null e d : scanner e d SNull = Ok (zero_field d).
 Proof.
   unfold scanner, scanner_gen, zero_field. destruct (d_base d) as [| | | | | | | |[]]; reflexivity.
 Qed.
+
+Lemma take_pad_id n : forall s, String.length s = n -> take_pad n s = s.
+Proof.
+  induction n as [|n IH]; intros [|c s] H; cbn in *; try discriminate; [reflexivity|].
+  rewrite IH by congruence. reflexivity.
+Qed.
+
+Lemma fit16_id s : String.length s = 16%nat -> fit16 s = s.
+Proof. apply take_pad_id. Qed.
 
 Theorem scan_roundtrip e d x c p s :
   env_laws e -> desc_ok d = true -> fval_ok e d x = true -> col_matches d c p = true ->
@@ -377,7 +410,7 @@ Proof.
   - (* nil pointer *)
     cbn [fval_ok d_ptr] in Hx. subst ptr. cbn [valuer dyn_of d_base d_ptr] in Hr.
     apply null_src in Hr. subst. rewrite scanner_null. reflexivity.
-  - cbn [fval_ok d_base] in Hx. unfold dyn_of in Hr. cbn [d_base d_ptr] in Hr.
+  - cbn [fval_ok d_base d_ptr] in Hx. apply andb_prop in Hx as [Hx Hnp]. unfold dyn_of in Hr. cbn [d_base d_ptr] in Hr.
     destruct b as [w|w| | | | | | |cu].
     (* plain kinds *)
     1-6: destruct g; try discriminate;
@@ -390,7 +423,7 @@ Proof.
                  pose proof (text_as_bytes e c p _ _ s (or_introl eq_refl) Hr) as Hb;
                  rewrite scanner_nonnull;
                  [ unfold scan_valid, scan_valid_gen; cbn [d_base d_tag]; rewrite Hb; reflexivity
-                 | discriminate
+                 | reflexivity
                  | eapply nonnull_src; [|exact Hr]; discriminate ]
              end.
     (* json / implicitnull on plain kinds *)
@@ -400,7 +433,7 @@ Proof.
                  pose proof (text_as_bytes e c p _ t s (or_intror eq_refl) Hr) as Hb;
                  rewrite scanner_nonnull;
                  [ unfold scan_valid, scan_valid_gen; cbn [d_base d_tag]; rewrite Hb, Hdec; reflexivity
-                 | discriminate
+                 | reflexivity
                  | eapply nonnull_src; [|exact Hr]; discriminate ]
              end.
     all: try match type of Hr with
@@ -411,39 +444,48 @@ Proof.
                    erewrite <- is_zero_zero by eauto; reflexivity
                  | eapply scanner_plain; eauto ]
              end.
-    + (* []byte *)
+    + (* []byte and *[]byte *)
       destruct g as [| | | |o| |]; try discriminate.
-      assert (Hp : ptr = false) by (destruct ptr; [|reflexivity]; destruct tg; discriminate).
-      subst ptr. destruct o as [t|].
-      * assert (Hv : valuer (mk_desc BBytes false tg) (Dyn BBytes false (FVal (GBytes (Some t)))) = DBytes t)
-          by (destruct tg; try discriminate; reflexivity).
+      destruct o as [t|].
+      * assert (Hv : valuer (mk_desc BBytes ptr tg) (Dyn BBytes ptr (FVal (GBytes (Some t)))) = DBytes t)
+          by (destruct tg; try discriminate; try reflexivity; destruct ptr; reflexivity).
         rewrite Hv in Hr.
         pose proof (text_as_bytes e c p _ t s (or_intror eq_refl) Hr) as Hb.
-        rewrite scanner_nonnull; [| discriminate | eapply nonnull_src; [|exact Hr]; discriminate].
+        rewrite scanner_nonnull; [| reflexivity | eapply nonnull_src; [|exact Hr]; discriminate].
         unfold scan_valid, scan_valid_gen. cbn [d_base]. rewrite Hb. reflexivity.
-      * cbn [valuer] in Hr. apply null_src in Hr. subst. rewrite scanner_null. reflexivity.
+      * (* a nil slice: only in a non-pointer field *)
+        assert (Hp : ptr = false) by (destruct ptr; [discriminate|reflexivity]). subst ptr.
+        cbn [valuer] in Hr. apply null_src in Hr. subst. rewrite scanner_null. reflexivity.
     + (* time *)
       destruct g; try discriminate.
       destruct tg; try discriminate; cbn [valuer d_tag plain] in Hr.
-      * rewrite scanner_nonnull; [| discriminate | eapply nonnull_src; [|exact Hr]; discriminate].
+      * rewrite scanner_nonnull; [| reflexivity | eapply nonnull_src; [|exact Hr]; discriminate].
         erewrite time_rt; eauto. reflexivity.
       * assert (Hp : ptr = false) by (destruct ptr; [discriminate|reflexivity]). subst ptr.
         cbn [negb andb] in Hr. destruct (is_zero (GTime t)) eqn:Hz.
         -- apply null_src in Hr. subst. rewrite scanner_null. unfold zero_field. cbn [d_ptr d_base].
            erewrite <- (is_zero_zero e BTime) by eauto. reflexivity.
         -- cbn [plain] in Hr.
-           rewrite scanner_nonnull; [| discriminate | eapply nonnull_src; [|exact Hr]; discriminate].
+           rewrite scanner_nonnull; [| reflexivity | eapply nonnull_src; [|exact Hr]; discriminate].
            erewrite time_rt; eauto. reflexivity.
     + (* custom types *)
-      destruct g; try discriminate.
-      destruct cu; destruct tg; try discriminate; cbn [valuer d_tag] in Hr.
+      destruct cu; destruct tg; try discriminate; destruct g as [| | | |o| |pl]; try discriminate;
+        cbn [valuer d_tag] in Hr.
       * (* Valuer / Scanner *)
-        destruct (text_src e c p _ s0 s (or_intror eq_refl) Hr) as [-> | [-> _]]; reflexivity.
+        destruct (text_src e c p _ pl s (or_intror eq_refl) Hr) as [-> | [-> _]]; reflexivity.
       * (* Marshal / Unmarshal, binary tag *)
-        destruct (text_src e c p _ (enc_bin s0) s (or_intror eq_refl) Hr) as [-> | [-> [[-> Hbad] | [-> ->]]]];
+        destruct (text_src e c p _ (enc_bin pl) s (or_intror eq_refl) Hr) as [-> | [-> [[-> Hbad] | [-> ->]]]];
           [reflexivity | discriminate | discriminate].
       * (* TextMarshaler, string tag *)
-        destruct (text_src e c p _ (enc_text s0) s (or_intror eq_refl) Hr) as [-> | [-> _]]; reflexivity.
+        destruct (text_src e c p _ (enc_text pl) s (or_intror eq_refl) Hr) as [-> | [-> _]]; reflexivity.
+      * (* sql.NullString *)
+        destruct o as [t|].
+        -- destruct (text_src e c p _ t s (or_introl eq_refl) Hr) as [-> | [-> _]]; reflexivity.
+        -- apply null_src in Hr. subst. destruct ptr; [discriminate Hnp|reflexivity].
+      * (* [16]byte *)
+        assert (Hfit : fit16 pl = pl) by (apply fit16_id; apply Nat.eqb_eq; exact Hx).
+        destruct (text_src e c p _ pl s (or_intror eq_refl) Hr) as [-> | [-> _]];
+          unfold scanner, scanner_gen; cbn [d_base]; rewrite Hfit; reflexivity.
 Qed.
 
 (** * Whole rows: BuildStruct / parseBinlogRow after unbuildStruct *)
@@ -590,27 +632,46 @@ Proof.
   - destruct c, c0; try discriminate; reflexivity.
 Qed.
 
-(** The column-typed value a filter value denotes. *)
-Definition as_field (v : dyn) : fval := match v with DynNil => FNil | Dyn _ _ fv => fv end.
+(** The column-typed value a filter value denotes: a nil slice / an invalid NullString denotes NULL,
+    except behind a non-nil pointer to a nil slice, which Valuer passes on as an empty byte string. *)
+Definition as_field (v : dyn) : fval :=
+  match v with
+  | DynNil => FNil
+  | Dyn BBytes ptr (FVal (GBytes None)) => if ptr then FVal (GBytes (Some ""%string)) else FNil
+  | Dyn _ _ (FVal (GBytes None)) => FNil
+  | Dyn _ _ fv => fv
+  end.
+
+Lemma valuer_nil d : valuer d (dyn_of d FNil) = DNull.
+Proof. destruct d; reflexivity. Qed.
 
 Lemma valuer_as_field e d v : desc_ok d = true -> dyn_typed e d v = true ->
   valuer d v = valuer d (dyn_of d (as_field v)) /\
-  (as_field v = FNil \/ exists g, as_field v = FVal g /\ gval_ok e (d_base d) g = true).
+  (as_field v = FNil \/ exists g, as_field v = FVal g /\ fval_ok e d (FVal g) = true).
 Proof.
   intros Hd Ht. destruct v as [|b ptr fv]; [split; [reflexivity|left; reflexivity]|].
   cbn [dyn_typed] in Ht. apply andb_prop in Ht as [Hb Hfv]. apply base_eqb_eq in Hb. subst b.
-  unfold dyn_of. cbn [as_field].
-  destruct fv as [|g]; [split; [reflexivity|left; reflexivity]|].
-  apply andb_prop in Hfv as [Hg Hz]. split; [|right; eauto].
-  destruct d as [b dptr tg]. cbn [d_base d_ptr d_tag] in *.
-  destruct tg; try reflexivity.
+  destruct fv as [|g].
+  { replace (as_field (Dyn (d_base d) ptr FNil)) with FNil by (destruct (d_base d); reflexivity).
+    split; [rewrite valuer_nil; reflexivity | left; reflexivity]. }
+  apply andb_prop in Hfv as [Hg Hz].
+  destruct d as [b dptr tg]. cbn [d_base d_ptr d_tag] in *. unfold dyn_of. cbn [d_base d_ptr].
+  destruct b as [w|w| | | | | | |[]]; destruct g as [z|f|bb|st|[t0|]|t|pl]; try discriminate Hg;
+    cbn [as_field].
+  (* a nil slice or an invalid NullString *)
+  all: try (destruct ptr; (split; [destruct tg; try discriminate Hd; try reflexivity; destruct dptr; reflexivity
+                                  | first [left; reflexivity
+                                          | right; eexists; split; [reflexivity|]; cbn; destruct dptr; reflexivity]]); fail).
+  (* everything else denotes itself *)
+  all: (split; [|right; eexists; split; [reflexivity|]; cbn [fval_ok d_base d_ptr]; rewrite Hg;
+                  destruct dptr; reflexivity]).
+  all: destruct tg; try reflexivity.
   (* implicitnull: the column is not a pointer *)
-  assert (dptr = false) by (destruct dptr; [|reflexivity]; apply andb_prop in Hd as [_ Hd']; discriminate).
-  subst dptr. destruct ptr; [|reflexivity].
-  cbn [andb tag_eqb negb] in Hz.
-  destruct (is_zero g) eqn:Hzero; [discriminate|].
-  cbn [valuer d_tag]. rewrite Hzero. cbn [negb andb].
-  destruct g; reflexivity.
+  all: assert (dptr = false) by (destruct dptr; [|reflexivity]; apply andb_prop in Hd as [_ Hd']; discriminate Hd');
+    subst dptr; destruct ptr; [|reflexivity];
+    cbn [andb tag_eqb negb] in Hz;
+    match type of Hz with negb (is_zero ?g) = true => destruct (is_zero g) eqn:Hzero; [discriminate Hz|] end;
+    cbn [valuer d_tag]; rewrite Hzero; cbn [negb andb]; reflexivity.
 Qed.
 
 Lemma proto_src_field v pf : value_to_field v = Ok pf -> proto_src v = Some (field_to_value pf).
@@ -618,18 +679,6 @@ Proof. destruct v; cbn; intros H; inv H; reflexivity. Qed.
 
 Lemma field_null v pf : value_to_field v = Ok pf -> field_to_value pf = SNull -> v = DNull.
 Proof. destruct v; cbn; intros H; inv H; cbn; congruence. Qed.
-
-Lemma valuer_null_nonptr e d g : desc_ok d = true -> gval_ok e (d_base d) g = true ->
-  valuer d (dyn_of d (FVal g)) <> DNull \/ d_ptr d = false.
-Proof.
-  intros Hd Hg. destruct (d_ptr d) eqn:Hp; [left|right; reflexivity].
-  destruct d as [b ptr tg]. cbn [d_ptr d_base] in *. subst ptr. unfold dyn_of. cbn [d_base d_ptr].
-  destruct b as [w|w| | | | | | |[]]; destruct g; try discriminate; destruct tg; try discriminate;
-    cbn [valuer d_tag plain json_enc negb andb];
-    repeat match goal with
-           | |- context[if ?q then _ else _] => destruct q
-           end; discriminate.
-Qed.
 
 (** One filter entry through FilterToProto and FilterFromProto. *)
 Lemma proto_entry e d v pf : env_laws e -> desc_ok d = true -> dyn_typed e d v = true ->
@@ -701,7 +750,7 @@ Qed.
 
 (** * A concrete environment satisfying the laws (floats and times printed as their names) *)
 Definition toy_env : env :=
-  mk_env print_Z print_Z parse_go_int (fun f => f) print_Z print_Z print_Z parse_go_int.
+  mk_env print_Z print_Z print_Z parse_go_int (fun f => f) print_Z print_Z print_Z parse_go_int.
 
 Lemma toy_env_laws : env_laws toy_env.
 Proof.
